@@ -142,6 +142,16 @@ func NewEv(t testing.TB, property, check, rule string) *Ev {
 	return e
 }
 
+// flushAllEvidence writes every collector's partial evidence (used when the process is about to exit abnormally).
+func flushAllEvidence() {
+	allEvMu.Lock()
+	evs := append([]*Ev(nil), allEv...)
+	allEvMu.Unlock()
+	for _, e := range evs {
+		e.Flush()
+	}
+}
+
 func fp(v any) uint64 {
 	h := fnv.New64a()
 	switch x := v.(type) {
